@@ -116,47 +116,57 @@ theorem rd_cons (env : Env) (fuel : Nat) (f : Field) (fs : List Field) (v : Val)
       (match f.dflt with
        | some d => d
        | none =>
-         match f.ty, v with
-         | .struct name, .struct inner =>
-           match env.find name with
-           | some ifs => Val.struct (resetDefault env fuel ifs inner)
-           | none => v
-         | _, _ => v) :: resetDefault env (fuel+1) fs vs := by
+         match f.ty with
+         | .struct _ =>
+           (match f.ty, v with
+            | .struct name, .struct inner =>
+              match env.find name with
+              | some ifs => Val.struct (resetDefault env fuel ifs inner)
+              | none => v
+            | _, _ => v)
+         | t => zeroOf env t) :: resetDefault env (fuel+1) fs vs := by
   conv => lhs; unfold resetDefault
   rfl
 
+/-- `ResetDefault` keeps a well-shaped target well-shaped: explicit defaults have the member's
+    shape, nested structs are reset recursively, every other member becomes its zero value -/
 theorem shape_resetDefault {env : Env} (hwf : EnvClosed env) : ∀ (fuel : Nat) (fs : List Field) (vs : List Val),
+    (∀ f, f ∈ fs → TyClosed env f.ty) →
     (∀ f, f ∈ fs → ∀ d, f.dflt = some d → Shape env f.ty d) → ShapeMembers env fs vs →
     ShapeMembers env fs (resetDefault env fuel fs vs) := by
   intro fuel
   induction fuel with
-  | zero => intro fs vs _ h; rw [rd_zero]; exact h
+  | zero => intro fs vs _ _ h; rw [rd_zero]; exact h
   | succ fuel ihf =>
     intro fs
     induction fs with
-    | nil => intro vs _ _; rw [rd_nil]; exact ShapeMembers.nilL
+    | nil => intro vs _ _ _; rw [rd_nil]; exact ShapeMembers.nilL
     | cons f fs ih =>
-      intro vs hd hs
+      intro vs hc hd hs
       cases vs with
       | nil => rw [rd_nilR]; exact ShapeMembers.nilR
       | cons v vs =>
         rw [rd_cons]
         cases hs with
         | cons hv hrest =>
-          refine ShapeMembers.cons ?_ (ih vs (fun g hg => hd g (List.mem_cons_of_mem _ hg)) hrest)
+          refine ShapeMembers.cons ?_ (ih vs (fun g hg => hc g (List.mem_cons_of_mem _ hg))
+            (fun g hg => hd g (List.mem_cons_of_mem _ hg)) hrest)
           split
           · rename_i d hdf
             exact hd f List.mem_cons_self d hdf
           · split
-            · rename_i name inner hty
-              rw [hty] at hv
-              obtain ⟨fs0, ovs, hv1, hfs0, hm⟩ := shape_struct_inv hv
-              simp only [Val.struct.injEq] at hv1
-              subst hv1
-              simp only [hfs0]
-              rw [hty]
-              exact Shape.struct hfs0 (ihf fs0 _ (hwf.dflt name fs0 hfs0) hm)
-            · exact hv
+            · split
+              · rename_i name inner hty
+                rw [hty] at hv
+                obtain ⟨fs0, ovs, hv1, hfs0, hm⟩ := shape_struct_inv hv
+                simp only [Val.struct.injEq] at hv1
+                subst hv1
+                simp only [hfs0]
+                rw [hty]
+                exact Shape.struct hfs0
+                  (ihf fs0 _ (hwf.closed name fs0 hfs0) (hwf.dflt name fs0 hfs0) hm)
+              · exact hv
+            · exact shape_zeroOf hwf (hc f List.mem_cons_self)
 
 
 /-- the outcome is not the model's ill-typed-target marker -/
@@ -181,7 +191,7 @@ theorem index_ne_ill : Err.panic "index" ≠ illTyped := by simp [illTyped]
 
 theorem arrOverflow_notIll (e : Ty) (r : Reader) : NotIll (arrOverflow e r) := by
   intro h
-  rcases arrOverflow_cls e r _ h with h1 | ⟨h1, _⟩ | h1
+  rcases arrOverflow_cls e r _ h with h1 | h1 | h1
   · simp [illTyped] at h1
   · exact makeslice_ne_ill h1.symm
   · exact index_ne_ill h1.symm
@@ -261,9 +271,13 @@ theorem dec_notIll (env : Env) (hwf : EnvClosed env) : ∀ f : Nat,
                   | error er => exact NotIll.of_plain (by simpa using hp2)
                   | ok len =>
                     simp only
-                    split
-                    · exact NotIll.of_err makeslice_ne_ill
-                    · exact ihE e _ _ r2 hcl
+                    have hp3 := checkLength_plain len r2
+                    cases hc3 : checkLength len r2 with
+                    | mk res3 r3 =>
+                      rw [hc3] at hp3
+                      cases res3 with
+                      | error er => exact NotIll.of_plain (by simpa using hp3)
+                      | ok u => exact ihE e _ _ r3 hcl
               · split
                 · split
                   · have hp2 := skipTo_plain tyBYTE 0 true r1
@@ -314,8 +328,10 @@ theorem dec_notIll (env : Env) (hwf : EnvClosed env) : ∀ f : Nat,
                   | ok len =>
                     simp only
                     obtain ⟨vs, rfl, hall⟩ := shape_arr_inv hsh
-                    exact ihA e n 0 len vs r2 hcl
-                      (fun j _ => shapeAll_getD hall (shape_zeroOf hwf hcl) j)
+                    split
+                    · exact NotIll.of_plain (by simp)
+                    · exact ihA e n 0 len vs r2 hcl
+                        (fun j _ => shapeAll_getD hall (shape_zeroOf hwf hcl) j)
               · exact NotIll.of_plain (by simp)
       | map k v =>
         rw [Total.decVar_map]
@@ -335,7 +351,15 @@ theorem dec_notIll (env : Env) (hwf : EnvClosed env) : ∀ f : Nat,
                 rw [hd] at hp2
                 cases res2 with
                 | error er => exact NotIll.of_plain (by simpa using hp2)
-                | ok len => exact ihP k v len [] r2 hcl.1 hcl.2
+                | ok len =>
+                  simp only
+                  have hp3 := checkLength_plain len r2
+                  cases hc3 : checkLength len r2 with
+                  | mk res3 r3 =>
+                    rw [hc3] at hp3
+                    cases res3 with
+                    | error er => exact NotIll.of_plain (by simpa using hp3)
+                    | ok u => exact ihP k v len [] r3 hcl.1 hcl.2
       | struct name =>
         rw [Total.decVar_struct]
         obtain ⟨fs, ovs, rfl, hfs, hm⟩ := shape_struct_inv hsh
@@ -356,7 +380,8 @@ theorem dec_notIll (env : Env) (hwf : EnvClosed env) : ∀ f : Nat,
             · have hd1 := hwf.dflt name fs hfs
               have hM := ihM fs (resetDefault env f fs (resetDefault env f fs ovs)) r1
                 (hwf.closed name fs hfs)
-                (shape_resetDefault hwf f fs _ hd1 (shape_resetDefault hwf f fs _ hd1 hm))
+                (shape_resetDefault hwf f fs _ (hwf.closed name fs hfs) hd1
+                  (shape_resetDefault hwf f fs _ (hwf.closed name fs hfs) hd1 hm))
               cases hd : decMembers env f fs (resetDefault env f fs (resetDefault env f fs ovs)) r1 with
               | mk res2 r2 =>
                 rw [hd] at hM
